@@ -5,6 +5,7 @@ package sample
 
 import (
 	"bytes"
+	"crypto"
 	"debug/pe"
 	"encoding/binary"
 	"fmt"
@@ -200,7 +201,91 @@ func (b *Box) Skip(k int) int {
 	return r.Len()
 }
 
+// ---- session 7 (fnarg.go): a local map, a hash.Hash, a memoising closure handed to an external function ---------
+
+// opaque for the translator (targets.json): asks the digest function it is handed for every algorithm of the list,
+// in order, and folds the lengths of the answers
+func Ask(algs []crypto.Hash, digest func(alg crypto.Hash) ([]byte, error)) (int, error) {
+	sum := 0
+	for _, a := range algs {
+		d, err := digest(a)
+		if err != nil {
+			return sum, err
+		}
+		sum = sum*31 + len(d)
+	}
+	return sum, nil
+}
+
+// the closure hashes data at most once per algorithm (a local map) and counts how often it hashes (a second captured
+// variable that it assigns): handed to the external once per round — inside a loop, which threads both — and called
+// directly at the end
+func Memo(data []byte, rounds [][]crypto.Hash) (int, int, error) {
+	seen := map[crypto.Hash][]byte{}
+	calls := 0
+	digest := func(alg crypto.Hash) ([]byte, error) {
+		if d, ok := seen[alg]; ok {
+			return d, nil
+		}
+		calls++
+		h := alg.New()
+		if _, err := io.Copy(h, bytes.NewReader(data)); err != nil {
+			return nil, err
+		}
+		h.Write([]byte{1})
+		seen[alg] = h.Sum(nil)
+		return seen[alg], nil
+	}
+	total := 0
+	for _, r := range rounds {
+		n, err := Ask(r, digest)
+		if err != nil {
+			return total, calls, err
+		}
+		total += n
+	}
+	d, _ := digest(crypto.SHA512)
+	return total + len(d), calls, nil
+}
+
+// a closure without assigned captures handed to the external: the state is Unit
+func Plain(data []byte, algs []crypto.Hash) (int, error) {
+	digest := func(alg crypto.Hash) ([]byte, error) {
+		h := alg.New()
+		h.Write(data)
+		return h.Sum([]byte{9}), nil
+	}
+	return Ask(algs, digest)
+}
+
 // ---- must be REJECTED ---------------------------------------------------------------------------
+
+// ranging over a map: Go's order is random
+func MapRange(k crypto.Hash) int {
+	m := map[crypto.Hash][]byte{}
+	m[k] = []byte{1}
+	n := 0
+	for _, v := range m {
+		n += len(v)
+	}
+	return n
+}
+
+func mapLen(m map[crypto.Hash][]byte) int { return len(m) }
+
+// a local map handed on: a reference in Go, a value in the translation
+func MapArg(k crypto.Hash) int {
+	m := map[crypto.Hash][]byte{}
+	m[k] = []byte{1}
+	return mapLen(m)
+}
+
+// a closure used as a value (bound to a second name)
+func FnValue(data []byte) (int, error) {
+	digest := func(alg crypto.Hash) ([]byte, error) { return data, nil }
+	other := digest
+	return Ask(nil, other)
+}
 
 // a section reader that does not start at offset 0
 func Window(b []byte) *io.SectionReader {
